@@ -331,8 +331,12 @@ fn cross_table(tables: &[Table<'_>], kind: WrittenKind, problems: &mut Problems)
             bad("post-v3-length", format!("{}", post.len()));
         }
     }
-    if let Some(cmap) = get(tag::CMAP) {
-        check_cmap(cmap, problems);
+    // cmap structural rules apply where the writer generated the cmap (subsets); instance()
+    // copies the source cmap verbatim.
+    if kind == WrittenKind::Sfnt {
+        if let Some(cmap) = get(tag::CMAP) {
+            check_cmap(cmap, problems);
+        }
     }
 }
 
@@ -555,7 +559,11 @@ fn bare_cff(w: &Written, fault_free: bool, problems: &mut Problems) {
     }
 }
 
-pub fn validate(w: &Written, fault_free: bool) -> Problems {
+/// `source_loadable`: `Font::new` succeeds on the source provider. The self-load half is a
+/// statement about the writer only when the source itself is loadable (whole_font and
+/// instance copy e.g. cmap through byte for byte; a source without a usable cmap cannot yield
+/// an output with one).
+pub fn validate(w: &Written, fault_free: bool, source_loadable: bool) -> Problems {
     let mut problems = Vec::new();
     if w.kind == WrittenKind::BareCff {
         bare_cff(w, fault_free, &mut problems);
@@ -563,10 +571,13 @@ pub fn validate(w: &Written, fault_free: bool) -> Problems {
     }
     let tables = validate_container(&w.bytes, &mut problems);
     if let Some(tables) = tables {
-        if fault_free {
+        // Cross-table relations: the property lists them for subsets and instances (and
+        // WOFF2 reconstructions), not for whole_font, which copies tables verbatim; and they
+        // are only asserted for fault-free sources.
+        if fault_free && w.kind != WrittenKind::Whole {
             cross_table(&tables, w.kind, &mut problems);
         }
-        if problems.is_empty() {
+        if problems.is_empty() && source_loadable {
             self_load(w, fault_free, &mut problems);
         }
     }
